@@ -127,6 +127,7 @@ type HistoryParams struct {
 	Policies       []string
 	CloudFail      bool
 	Phrases        int // percentage of generation steps that emit a multi-op phrase (default 35)
+	AltRanges      bool // workloads may change their pods' request_ip_range between incarnations (pod template edited)
 	FaultPct       int // percentage of histories in which one API-server call of galaxy-ipam fails (error, no effect)
 }
 
@@ -176,6 +177,9 @@ func genWLs(t *rapid.T, hp *HistoryParams, topo Topo) ([]WL, []PoolObj) {
 		wl.NoObject = wl.Kind != "bare" && rapid.IntRange(0, 9).Draw(t, "noObject") == 0
 		if hp.Ranges && rapid.IntRange(0, 3).Draw(t, "withRanges") == 0 {
 			wl.Ranges = genRanges(t, topo, rapid.IntRange(1, 3).Draw(t, "k"))
+		}
+		if hp.AltRanges && rapid.IntRange(0, 2).Draw(t, "withAltRanges") == 0 {
+			wl.AltRanges = genRanges(t, topo, rapid.IntRange(1, 2).Draw(t, "kAlt"))
 		}
 		wls = append(wls, wl)
 	}
